@@ -41,14 +41,15 @@ Inductive tmode := TargetFirst (ty : string) | TargetField (gty ty loop_ty : str
 (* ------------------------------------------------------------------ abstract input *)
 Inductive lang := Py | Ts | Js | Rs.
 
-(* a physical source line: what it is (ground truth of the generator) and its text after strip() *)
+(* a physical source line: what it is (ground truth of the generator) and its raw text (without the newline);
+   the analyzers look at l_text = str.strip() of it *)
 Inductive lkind :=
 | LBlank          (* empty or whitespace only *)
 | LComment        (* line comment: # in Python, // in TypeScript/JavaScript/Rust *)
 | LBlockComment   (* TS/JS/Rust: a one-line block comment *)
 | LCode           (* anything else: code, also a line with code followed by a comment *)
 | LStrHash.       (* Python: a line inside a multi-line string literal whose text starts with # *)
-Record line := { l_kind : lkind; l_text : string }.
+Record line := { l_kind : lkind; l_raw : string }.
 
 (* members of a class body / impl block as written in the source *)
 Inductive mkind :=
@@ -63,7 +64,9 @@ Inductive mkind :=
 | MProtectedKw  (* protected f() (TS) *)
 | MHashPrivate  (* #f() (TS/JS) *)
 | MField        (* x = 1 / x = 1; / const X: i32 = 1; -- not a method *)
-| MPubFn.       (* pub fn f(&self) (Rust) *)
+| MPubFn        (* pub fn f(&self) (Rust) *)
+| MSetter       (* @x.setter / @x.deleter (Python), set f(v) (TS/JS) *)
+| MCachedProp.  (* @cached_property (Python) *)
 Record member := { m_kind : mkind; m_name : string }.
 
 Inductive ckind := CPlain | CExport | CExportDefault | CAbstract | CExportAbstract.
@@ -95,6 +98,24 @@ Definition rep_eqb (a b : rep) : bool :=
   match a, b with (l1, c1, m1), (l2, c2, m2) => (l1 =? l2) && (c1 =? c2) && String.eqb m1 m2 end.
 
 (* ------------------------------------------------------------------ shared helper functions *)
+(* str.strip() on ASCII text: the characters Python's str.isspace accepts below 128 *)
+Definition is_ws (c : ascii) : bool :=
+  let n := nat_of_ascii c in ((9 <=? n) && (n <=? 13)) || ((28 <=? n) && (n <=? 32)).
+Fixpoint lstrip (s : string) : string :=
+  match s with EmptyString => EmptyString | String c r => if is_ws c then lstrip r else s end.
+Fixpoint rstrip (s : string) : string :=
+  match s with
+  | EmptyString => EmptyString
+  | String c r => match rstrip r with
+                  | EmptyString => if is_ws c then EmptyString else String c EmptyString
+                  | r' => String c r'
+                  end
+  end.
+Definition strip (s : string) : string := rstrip (lstrip s).
+Definition l_text (x : line) : string := strip (l_raw x).
+Fixpoint ascii_only (s : string) : bool :=
+  match s with EmptyString => true | String c r => (nat_of_ascii c <? 128) && ascii_only r end.
+
 Fixpoint starts_with (p s : string) : bool :=
   match p with
   | EmptyString => true
